@@ -161,6 +161,7 @@ type c10Rec struct {
 	path     string
 	termStep int
 	term     bool
+	at       time.Duration // simulated time at which its Init started
 }
 
 type c10App struct{ spec gen.ApplicationSpec }
@@ -186,7 +187,7 @@ func (c10) Run(e *simkit.Env, cc any) {
 	byPID := map[gen.PID]*c10Rec{}
 	record := func(p gen.Process, kind, path string) {
 		mu.Lock()
-		r := &c10Rec{pid: p.PID(), parent: p.Parent(), kind: kind, path: path}
+		r := &c10Rec{pid: p.PID(), parent: p.Parent(), kind: kind, path: path, at: e.Now()}
 		recs = append(recs, r)
 		byPID[p.PID()] = r
 		mu.Unlock()
@@ -202,8 +203,10 @@ func (c10) Run(e *simkit.Env, cc any) {
 			parent = byPID[r.parent]
 		}
 		mu.Unlock()
-		if parent != nil && !parent.term && !aliveFn(parent.pid) {
+		if parent != nil && !parent.term && parent.at == e.Now() && !aliveFn(parent.pid) {
 			// the parent exists but is not registered yet: it is still inside its ProcessInit
+			// (which takes no simulated time; a parent that is gone at a later instant has been
+			// unregistered and its terminate callback is on its way)
 			diedDuringParentInit = true
 			e.Logf("%v died while its parent %s was still initialising", pid.ID, parent.path)
 		}
@@ -310,7 +313,7 @@ func (c10) Run(e *simkit.Env, cc any) {
 		r := recs[f.Target%len(recs)]
 		parent := byPID[r.parent]
 		mu.Unlock()
-		if parent != nil && !parent.term && !alive(parent.pid) {
+		if parent != nil && !parent.term && parent.at == e.Now() && !alive(parent.pid) {
 			diedDuringParentInit = true
 			e.Logf("fault hits %s while its parent %s is still initialising", r.path, parent.path)
 		}
@@ -453,6 +456,7 @@ func (c10) Run(e *simkit.Env, cc any) {
 		wasAlive[r.pid] = alive(r.pid)
 	}
 	// final action
+	finalStart := e.Step()
 	finalOK := true
 	finalRet := 0
 	_ = finalRet
@@ -518,6 +522,8 @@ func (c10) Run(e *simkit.Env, cc any) {
 									why = " [its owner is a pool, which does not wait for its workers]"
 								} else if h := hitBy[o.pid]; h != "" {
 									why = fmt.Sprintf(" [its owner %s was terminated by an injected %s and could not wait]", o.path, h)
+								} else if o.termStep < finalStart {
+									why = fmt.Sprintf(" [its owner %s had terminated on its own before the stop was requested and could not wait]", o.path)
 								}
 								break
 							}
